@@ -16,6 +16,7 @@ class Model:
         self.processes = []      # dict(name, templ, args=[marker or global name]) ; or direct template names
         self.system = []         # process names in system line
         self.priorities = False
+        self.text = {}           # (kind, marker) -> label text overriding label_text (C20 variants)
 
 
 def gen(rng, ntempl=None, allow_anon=True, branchpoints=True, xta_common=False):
@@ -98,6 +99,10 @@ def label_text(kind, m):
     return {'inv': 'x <= %d' % m, 'rate': '%d' % m, 'select': 's%d : int[0,1]' % m, 'guard': 'g0 == %d' % m, 'sync': 'c%d!' % m, 'update': 'g1 = %d' % m, 'prob': '%d' % m}[kind]
 
 
+def ltext(M, kind, m):
+    return M.text.get((kind, m)) or label_text(kind, m)
+
+
 def global_decl(M):
     d = 'clock x;\n' + ''.join('int %s;\n' % g for g in M.globals) + ''.join('chan %s;\n' % c for c in M.chans)
     return d
@@ -128,9 +133,9 @@ def render_xml(M, rng=None):
             if l['name']:
                 out.append('<name>%s</name>' % l['name'])
             if l['inv'] is not None:
-                out.append('<label kind="invariant">%s</label>' % XESC(label_text('inv', l['inv'])))
+                out.append('<label kind="invariant">%s</label>' % XESC(ltext(M, 'inv', l['inv'])))
             if l['rate'] is not None:
-                out.append('<label kind="exponentialrate">%s</label>' % label_text('rate', l['rate']))
+                out.append('<label kind="exponentialrate">%s</label>' % ltext(M, 'rate', l['rate']))
             if l['urgent']: out.append('<urgent/>')
             if l['committed']: out.append('<committed/>')
             out.append('</location>\n')
@@ -140,7 +145,7 @@ def render_xml(M, rng=None):
         for e in T['edges']:
             out.append('<transition%s><source ref="%s"/><target ref="%s"/>' % ('' if e['control'] else ' controllable="false"', e['src'], e['dst']))
             for k, m in e['labels']:
-                out.append('<label kind="%s">%s</label>' % (kmap[k], XESC(label_text(k, m))))
+                out.append('<label kind="%s">%s</label>' % (kmap[k], XESC(ltext(M, k, m))))
             out.append('<nail x="1" y="1"/></transition>\n')
         out.append('</template>\n')
     out.append('<system>%s</system>\n</nta>\n' % XESC(system_text(M)))
@@ -164,7 +169,7 @@ def render_xta(M):
         for l in T['locs']:
             s = loc_name(T, l['id'])
             items = []
-            if l['inv'] is not None: items.append(label_text('inv', l['inv']))
+            if l['inv'] is not None: items.append(ltext(M, 'inv', l['inv']))
             if l['rate'] is not None: items.append(None)
             sts.append(s + (' { %s }' % items[0] if items and items[0] else ''))
         out.append('state ' + ', '.join(sts) + ';\n')
@@ -178,7 +183,7 @@ def render_xta(M):
             for e in T['edges']:
                 labs = ''
                 for k, m in e['labels']:
-                    labs += {'select': 'select %s; ', 'guard': 'guard %s; ', 'sync': 'sync %s; ', 'update': 'assign %s; ', 'prob': 'probability %s; '}[k] % label_text(k, m)
+                    labs += {'select': 'select %s; ', 'guard': 'guard %s; ', 'sync': 'sync %s; ', 'update': 'assign %s; ', 'prob': 'probability %s; '}[k] % ltext(M, k, m)
                 es.append('%s %s %s { %s}' % (loc_name(T, e['src']), '->' if e['control'] else '-u->', loc_name(T, e['dst']), labs))
             out.append('trans ' + ',\n'.join(es) + ';\n')
         out.append('}\n')
